@@ -6,7 +6,7 @@ sys.path.insert(0, os.path.join(V, 'lib'))
 import vk
 
 TEXT = {
- "C01": ("kernel level: range-coder bit/tree/direct-bit mirrors, distance-slot arithmetic for every u32, LZMA2 chunk-header writer<->reader step, LZ window and LZ dictionary one-step invariants, one HC4 / BT4 match-finder step from an arbitrary finder state (every reported pair is a true match inside dictionary and window; hash tables as environment stub), Fast-mode parser soundness (thorough), each decided by CBMC over all symbolic inputs inside the stated bounds. Whole-stream round trips (optimal parser, LZMA symbol layer beyond one literal, >1 symbol) are outside the claim.", "6/C01"),
+ "C01": ("kernel level: range-coder bit/tree/direct-bit mirrors, distance-slot arithmetic for every u32, LZMA2 chunk-header writer<->reader step, LZ window and LZ dictionary one-step invariants, one HC4 / BT4 match-finder step from an arbitrary finder state (every reported pair is a true match inside dictionary and window; hash tables as environment stub), Fast-mode parser soundness, each decided by CBMC over all symbolic inputs inside the stated bounds. Whole-stream round trips (optimal parser, LZMA symbol layer beyond one literal, >1 symbol) are outside the claim.", "6/C01"),
  "C02": ("container-field level: LZIP dictionary byte for every u32, XZ multibyte integers for every u64, stream header / block header / index / footer writer<->parser round trips for symbolic field values, LZIP header/trailer fields. Payload coding is covered only through the C01 kernels.", "6/C02"),
  "C03": ("differential against a short reference model of the xz / lzip / LZMA_Alone / LZMA2-chunk layouts written from the format specifications; liblzma itself is C behind FFI and cannot be encoded, so acceptance by the real reference binary is outside the claim.", "6/C03"),
  "C04": ("detection-logic level: every integrity comparison site (XZ stream header/footer/block header/index CRC32, block check, LZIP trailer fields, magic/version/dictionary byte) returns Ok only when the stored field equals the recomputed one, for all field values; index records are compared with the decoded blocks; input ending inside a following stream's magic is an error. 'Every corruption of every file' is outside (and false for any 32-bit check).", "6/C04"),
